@@ -309,6 +309,7 @@ fn main() {
                 let t0 = std::time::Instant::now();
                 let out = gort::run_go(&c.gp, *st, k as u64, vec![], gort::DEFAULT_STEPS);
                 let t1 = t0.elapsed();
+                props::c09::STRICT_LIVENESS.with(|c| c.set(true));
                 let ch = props::c09::check_schedule(&c.gp, &c.rp, *st, k as u64, vec![], gort::DEFAULT_STEPS);
                 println!("{:?}: go steps={} events={} goroutines={} stop={:?} go-time={:?} total={:?} verdict={:?}", st, out.steps, out.events.len(), out.goroutines, out.stop, t1, t0.elapsed(), match ch.verdict { props::c09::Verdict::Violates(m) => format!("VIOLATES {}", m.detail), v => format!("{v:?}") });
             }
